@@ -55,6 +55,8 @@ def key(e, case):
 
 def run(ctx, kinds):
     """Returns (events, cases)."""
+    if ctx.thorough:
+        ctx.prove("AgesProofs")   # TLAPS: Ageless for the intended design after ANY number of operations
     ctx.model_check("Ages", "MC_Ages.cfg", workers=4)
     for cfg, dev in NEG:
         ctx.model_check("Ages", cfg, workers=1, expect_violation="Invariant Ageless is violated")
